@@ -58,13 +58,13 @@ func runC09(r *kit.Run) {
 // the next: a message that stays behind until "the next publish" is stuck
 // here, because the next publish only comes after it was delivered.
 func c09Trickle(r *kit.Run, idx int64, rng *rand.Rand) {
-	cfg := brokerCfg{Backend: []string{"queue-unlimited", "queue-unlimited", "deque-unlimited", "channel", "deque-cap"}[rng.IntN(5)], Direct: true, Delay: "none",
-		Workers: []int{0, 1, 1, 2}[rng.IntN(4)], Parallel: rng.IntN(2) == 0, Cap: 2 + rng.IntN(4)}
+	cfg := brokerCfg{Backend: []string{"queue-unlimited", "queue-unlimited", "queue-bounded", "queue-unlimited", "deque-unlimited", "channel", "deque-cap"}[rng.IntN(7)], Direct: true, Delay: "none",
+		Workers: []int{0, 1, 1, 2}[rng.IntN(4)], Parallel: rng.IntN(2) == 0, Cap: 8 + rng.IntN(4)}
 	if strings.HasPrefix(cfg.Backend, "deque") && cfg.Workers > 1 {
 		cfg.Workers = 1 // DESIGN 3.3
 	}
 	procs := []int{2, 4, 16}[rng.IntN(3)]
-	rounds := 3000
+	rounds := 6000
 	desc := map[string]any{"mode": "trickle", "config": cfg, "rounds_of_1_or_2_messages": rounds, "gomaxprocs": procs}
 	r.EvalN(int64(rounds))
 	r.Current(idx, fmt.Sprintf("C09 %+v", desc))
@@ -123,7 +123,7 @@ func c09Trickle(r *kit.Run, idx int64, rng *rand.Rand) {
 // its last free slots, (b) with a large pool of idle workers parked on a
 // Queue; then Stop / cancel: Wait returns and nothing of the broker is left.
 func c09Fill(r *kit.Run, idx int64, rng *rand.Rand) {
-	brokers := 60
+	brokers := 120
 	procs := []int{4, 16}[rng.IntN(2)]
 	how := []string{"Stop", "cancel-parent"}[rng.IntN(2)]
 	desc := map[string]any{"mode": "fill-buffered-subscription", "brokers": brokers, "how": how, "gomaxprocs": procs}
